@@ -16,7 +16,10 @@ def run(run):
         return
     quick = run.tier == "quick"
     fams = [("corpus:corpus/C09/stop-between-setconfig-and-boot.jsonl", 0, 0),
-            ("corpus:corpus/C09/stale-stop-on-restarted-child.jsonl", 0, 0), ("f8", 4, run.seed), ("stale", 4, run.seed),
+            ("corpus:corpus/C09/stale-stop-on-restarted-child.jsonl", 0, 0),
+            ("corpus:corpus/C09/error-during-reload.jsonl", 0, 0), ("corpus:corpus/C09/duplicate-name-objects.jsonl", 0, 0),
+            ("f8", 4, run.seed), ("stale", 4, run.seed), ("errwin", 15 if quick else 150, run.seed), ("multifail", 20 if quick else 200, run.seed + 5),
+            ("c11dup", 8 if quick else 40, run.seed + 3),
             ("c09", 1500 if quick else 20000, run.seed), ("boot", 300 if quick else 3000, run.seed + 1),
             ("c11", 400 if quick else 5000, run.seed + 2)]
     results, cover, summary, scripts, traces = L.run_families(run, fams)
@@ -26,8 +29,9 @@ def run(run):
                          "stop-between-setconfig-and-boot witness, mock and real nested composite children; must now end unblocked), stale (the "
                          "repaired stale-stop witness: a restarted child parked before Run, then a second restart; must now hold), c09 (a reload that grows/replaces/permutes/keeps the "
                          "membership, the reloader parked on one of 12 log records delimiting its steps, then Stop()/cancel/a second "
-                         "Reload()/nothing injected, both Stop styles, 1 in 6 with a real composite.Runner child), boot (Reload/Stop/"
-                         "cancel while Run is booting), c11 (unparked reload histories incl. concurrent callers)")
+                         "Reload()/nothing injected, both Stop styles, 1 in 6 with a real composite.Runner child), errwin (an old child returns a real error when the reload stops it while the reloader is parked at one of its steps: Run's "
+                         "failure teardown meets a reload in progress), c11dup (duplicate entry names incl. two distinct runnables with one String()), "
+                         "boot (Reload/Stop/cancel while Run is booting), c11 (unparked reload histories incl. concurrent callers)")
     run.assumptions += ["children behave like the bundled runnables: contract of coq/model/Composite.v (exit on signal/cancel; "
                         "Stop either non-blocking or blocking until a Run has started and finished)",
                         "a single Run() per Runner instance"]
